@@ -106,9 +106,9 @@ func (p Params) Coq() string {
 // ---------------------------------------------------------------- keys
 
 type Key struct {
-	Prv  *ecdsa.PrivateKey
-	Addr []byte // 20 bytes
-	Pub  []byte // 33 bytes compressed
+	Prv  *ecdsa.PrivateKey `json:"-"`
+	Addr []byte            // 20 bytes
+	Pub  []byte            // 33 bytes compressed
 	Name string
 }
 
